@@ -63,6 +63,13 @@ type World struct {
 	SeqTick bool
 	// Extra hook consulted after logging (fault injection / scheduler gates)
 	Extra vsql.Hook
+	// LogOn: keep the statement log (only the fault-enumeration check needs it)
+	LogOn bool
+	// Budget: when > 0 it is decremented per statement; reaching zero calls
+	// OnBudget once (spin detection: code that polls the database in a loop
+	// never becomes quiescent under frozen virtual time)
+	Budget   int64
+	OnBudget func()
 }
 
 // idGen is a deterministic io.Reader for uuid.SetRand: the n-th UUID is a hash
@@ -131,10 +138,22 @@ func (w *World) Close() {
 
 func (w *World) hook(p vsql.Point) error {
 	w.logMu.Lock()
-	w.Log = append(w.Log, p)
+	if w.LogOn {
+		w.Log = append(w.Log, p)
+	}
 	extra := w.Extra
 	tick := w.SeqTick
+	var fire func()
+	if w.Budget > 0 {
+		w.Budget--
+		if w.Budget == 0 {
+			fire = w.OnBudget
+		}
+	}
 	w.logMu.Unlock()
+	if fire != nil {
+		fire()
+	}
 	if tick && (p.Kind == vsql.Stmt || p.Kind == vsql.Begin || p.Kind == vsql.Commit) {
 		time.Sleep(time.Microsecond)
 	}
@@ -147,6 +166,13 @@ func (w *World) hook(p vsql.Point) error {
 func (w *World) ResetLog() {
 	w.logMu.Lock()
 	w.Log = w.Log[:0]
+	w.logMu.Unlock()
+}
+
+// SetBudget arms the statement budget (0 disarms it).
+func (w *World) SetBudget(n int64, f func()) {
+	w.logMu.Lock()
+	w.Budget, w.OnBudget = n, f
 	w.logMu.Unlock()
 }
 
